@@ -22,7 +22,7 @@ RULE = ('all strings of length <= n over the 9-character alphabet {a ; : , backs
         'coordinates and mailto parameter combinations; EPC: every documented limit +-1, all eight encodings by name and number, amounts at '
         'both range ends; each payload parsed by an independent parser and compared with the supplied values; factory symbols decoded by qrref. '
         'non-trivial = payload produced and parsed (or refusal expected)')
-BOUNDS = {'quick': 'n = 3', 'thorough': 'n = 4; all field pairs'}
+BOUNDS = {'quick': 'n = 4', 'thorough': 'n = 5; all field pairs'}
 ASSUMPTIONS = ['MeCard N/ADR are single fields whose comma-separated components are structure by specification',
                'closed-domain values (security, dates) are drawn from their domain; EPC fields compared modulo the blanks segno strips']
 CHUNK = 1
@@ -82,7 +82,7 @@ def parse_fields(body):
 
 
 def gen_cases(tier):
-    n = 3 if tier == 'quick' else 4
+    n = 4 if tier == 'quick' else 5
     for first in A:
         yield ('wifi', first, n)
         yield ('mecard', first, n)
